@@ -794,6 +794,49 @@ def check_every(ctx):
            'the sample writer filters the formatted sections')
 
 
+def check_fresh_output(ctx, rule='C17.FRESH-OUTPUT'):
+    """A generated file is the generated text and nothing else: every open
+    for writing in the generator module truncates (mode 'w' / 'x', or
+    os.open with O_TRUNC) - never append / update-in-place, which would keep
+    the tail of a longer file that was there before."""
+    prog = ctx.prog
+    mod = prog.module(GEN)
+    n = 0
+    for f in sorted(mod.functions.values(), key=lambda x: x.qual):
+        for c in walk_no_nested(f.node):
+            if not isinstance(c, ast.Call):
+                continue
+            r = prog.resolve(f.module, c.func)
+            bad = None
+            if r in ('builtin:open', 'ext:io.open', 'ext:codecs.open'):
+                m = kwarg(c, 'mode', 1)
+                if m is None or not (isinstance(m, ast.Constant)
+                                     and isinstance(m.value, str)):
+                    continue
+                if not set(m.value) & set('wax+'):
+                    continue            # opened for reading
+                n += 1
+                if 'w' not in m.value and 'x' not in m.value:
+                    bad = 'mode %r keeps what the file held before' % m.value
+            elif r == 'ext:os.open' and len(c.args) >= 2:
+                flags = U(c.args[1])
+                if 'O_WRONLY' not in flags and 'O_RDWR' not in flags:
+                    continue
+                n += 1
+                if 'O_TRUNC' not in flags and 'O_EXCL' not in flags:
+                    bad = 'os.open(%s) without O_TRUNC overwrites in ' \
+                          'place' % flags
+            else:
+                continue
+            ctx.ob(rule, bad is None, ctx.where(f.module, c), f.qual,
+                   U(c)[:70], 'an existing file is emptied first' if bad is
+                   None else 'the output file is not truncated (%s): written '
+                   'over a longer file, the sample keeps that file\'s tail - '
+                   'uncommented rules of an old policy file, or invalid '
+                   'YAML / JSON' % bad)
+    ctx.floor(rule, n, 1, 'opens for writing in the generator')
+
+
 def check(ctx):
     ctx.use(GEN)
     ctx.explain('C17: the help-text formatter is proved to return only '
@@ -811,3 +854,4 @@ def check(ctx):
     check_lines(ctx, fmt, sanitizer, ok)
     check_json(ctx)
     check_every(ctx)
+    check_fresh_output(ctx)
